@@ -60,6 +60,7 @@ QUEUES = "sercomm.tx.dlci_queues"
 HANDLERS = "sercomm.rx.dlci_handler"
 
 CMP = ("==", "!=", "<", ">", "<=", ">=")
+OCTET_TYPES = ("uint8_t", "unsigned char")
 
 
 def hx(v):
@@ -205,7 +206,7 @@ class Step:
             if a[0] == "const":
                 a, b = b, a
             if a[0] == "octet" and b[0] == "const":
-                return ("octet", a[1] ^ b[1], a[2])
+                return ("octet", (a[1] ^ b[1]) & 0xFF, a[2])     # the subject is an 8-bit octet
         i = ref_id(e)
         if i is not None and i in st.env:
             return st.env[i]
@@ -332,8 +333,8 @@ class Step:
                 t = self.term(rhs, snap)
                 if self.is_subject(lhs):
                     if op == "^=" and t[0] == "const":
-                        st.mask ^= t[1]
-                        st.events.append(("xor", t[1], node.id, line))
+                        st.mask ^= t[1] & 0xFF
+                        st.events.append(("xor", t[1] & 0xFF, node.id, line))
                     else:
                         raise AnalysisError("%s(): the octet `%s` is modified by `%s %s` -- unclassifiable" % (
                             self.fname, self.subject, op, ctext(rhs)))
@@ -385,6 +386,13 @@ class Step:
                     done.append(st)
                     return
                 if node.id in seen:
+                    # second visit of a loop head: assume the loop terminates here
+                    exits = [s for (s, l) in node.succ if node.kind == "cond" and l is False]
+                    if exits and ("exit", node.id) not in seen:
+                        st.events.append(("loopexit", node.id))
+                        seen = seen | {("exit", node.id)}
+                        node = exits[0]
+                        continue
                     st.events.append(("loopcut", node.id))
                     st.ret = ("loopcut",)
                     done.append(st)
@@ -461,12 +469,14 @@ class Step:
             if k == "BinaryOperator" and n.get("opcode") in CMP + ("^",):
                 for c in kids(n):
                     v = self.tu.fold(c)
-                    if v is not None and 0 <= v <= 255:
-                        (masks if n.get("opcode") == "^" else consts).add(v)
+                    if v is not None and n.get("opcode") == "^":
+                        masks.add(v & 0xFF)
+                    elif v is not None and 0 <= v <= 255:
+                        consts.add(v)
             elif k == "CompoundAssignOperator" and n.get("opcode") == "^=":
                 v = self.tu.fold(kids(n)[1])
-                if v is not None and 0 <= v <= 255:
-                    masks.add(v)
+                if v is not None:
+                    masks.add(v & 0xFF)
             elif k == "CaseStmt":
                 v = self.tu.fold(kids(n)[0])
                 if v is not None and 0 <= v <= 255:
@@ -625,6 +635,8 @@ class Rx:
         ps = tu.fparams(f)
         if len(ps) != 1:
             raise AnalysisError("%s(): signature changed" % RX_FN)
+        if ps[0].get("type", {}).get("qualType") not in OCTET_TYPES:
+            raise AnalysisError("%s(): the received octet is no longer an 8-bit unsigned value" % RX_FN)
         self.step = Step(tu, RX_FN, ps[0]["name"], RXS)
         self.g = self.step.g
         self.states = enum_states(tu)
@@ -644,8 +656,10 @@ class Rx:
                     self.noroomtest += 1
                 sigs.add(self.sig(p))
             if len(sigs) != 1:
-                raise AnalysisError("%s(): the step in %s on octet %s is not a function of (state, octet): %d behaviours"
-                                    % (RX_FN, sname(self.names, s), hx(v), len(sigs)))
+                forks = sorted({("" if pol else "!") + t for p in paths for e in p.events if e[0] == "fork"
+                                for (t, pol) in e[3]})
+                raise AnalysisError("%s(): the step in %s on octet %s is not a function of (state, octet): %d behaviours "
+                                    "depending on %s -- unclassifiable" % (RX_FN, sname(self.names, s), hx(v), len(sigs), forks))
             self.rows[(s, v)] = sigs.pop()
 
     @staticmethod
@@ -681,7 +695,8 @@ class Rx:
                 elif name in ("sercomm_alloc_msgb", "msgb_tailroom"):
                     pass
                 else:
-                    out.append(("call", name, at))
+                    raise AnalysisError("%s() calls %s(): its effect on the receive step is outside the rule's "
+                                        "vocabulary -- unclassifiable" % (RX_FN, name))
             elif e[0] == "store":
                 ltxt, t, shape = e[1], e[2], e[5]
                 if ltxt == RXM:
@@ -766,6 +781,9 @@ class Tx:
         if len(ps) != 1:
             raise AnalysisError("%s(): signature changed" % TX_FN)
         self.out = ps[0]["name"]
+        ptypes = {n.get("type", {}).get("qualType") for n in walk(tu.body(f)) if kind(n) == "MemberExpr" and ctext(n) == TXP}
+        if not ptypes or not all(t.endswith("*") and t[:-1].strip() in OCTET_TYPES for t in ptypes):
+            raise AnalysisError("%s(): %s is no longer a pointer to 8-bit unsigned octets (%s)" % (TX_FN, TXP, sorted(ptypes)))
         self.step = Step(tu, TX_FN, "*" + TXP, TXS, ptr=TXP)
         self.g = self.step.g
         self.states = enum_states(tu)
@@ -835,7 +853,8 @@ class Tx:
                 elif e[1] == "msgb_dequeue":
                     out.append(("dequeue", e[2][0]))
                 elif e[1] not in ("sercomm_lock", "sercomm_unlock"):
-                    out.append(("call", e[1]))
+                    raise AnalysisError("%s() calls %s(): its effect on the transmit step is outside the rule's "
+                                        "vocabulary -- unclassifiable" % (TX_FN, e[1]))
             elif e[0] == "compound":
                 out.append(("compound", e[1], e[2]))
             elif e[0] == "return":
@@ -999,14 +1018,20 @@ def r1_bounded_store(L, tu, tag, size, rx):
                 n, par = par, tu.parent.get(id(par))
             pk = kind(par)
             if pk == "BinaryOperator" and par.get("opcode") == "=" and kids(par)[0] is n:
+                if name not in ("sercomm_init", RX_FN):
+                    raise AnalysisError("%s() assigns %s: writer outside the analysed receive step -- unclassifiable"
+                                        % (name, RXM))
                 L.ob(R, F, name, "assignment of the receive buffer pointer", "only in sercomm_init / %s" % RX_FN,
-                     name, name in ("sercomm_init", RX_FN), tu.line(par))
+                     name, True, tu.line(par))
             elif pk == "CallExpr" and kids(par)[0] is not n:
                 callee = ctext(kids(par)[0])
                 if callee in allowed:
                     if callee in ("msgb_put", "dispatch_rx_msg"):
+                        if name != RX_FN:
+                            raise AnalysisError("%s() calls %s on the receive buffer: not covered by the tailroom "
+                                                "analysis of %s -- unclassifiable" % (name, callee, RX_FN))
                         L.ob(R, F, name, "%s on the receive buffer" % callee, "only in %s" % RX_FN, name,
-                             name == RX_FN, tu.line(par))
+                             True, tu.line(par))
                 elif callee.startswith(mutators):
                     L.ob(R, F, name, "receive buffer handed to %s()" % callee, "only msgb_put under the tailroom test",
                          callee, False, tu.line(par))
@@ -1028,13 +1053,16 @@ def r1_bounded_store(L, tu, tag, size, rx):
             elif pk in ("UnaryOperator", "IfStmt", "BinaryOperator", "ConditionalOperator", "WhileStmt"):
                 if pk == "UnaryOperator" and par.get("opcode") == "&":
                     raise AnalysisError("%s(): address of %s taken -- unclassifiable" % (name, RXM))
+                if pk == "BinaryOperator" and par.get("opcode") not in CMP + ("&&", "||"):
+                    raise AnalysisError("%s(): %s copied or combined by `%s` (alias) -- unclassifiable" % (
+                        name, RXM, par.get("opcode")))
             else:
                 raise AnalysisError("%s(): use of %s in a %s -- unclassifiable" % (name, RXM, pk))
-    L.floor(R, "uses of %s (%s build)" % (RXM, tag), nuse, 8)
+    L.floor(R, "uses of %s (%s build)" % (RXM, tag), nuse, 5)
 
 
 class TxFacts:
-    pass
+    """esc, xor, esc_state, normal_states, escaped, raw, flag -- extracted from the transmitter table."""
 
 
 def r2_tx(L, tu, tag, tx):
@@ -1042,7 +1070,6 @@ def r2_tx(L, tu, tag, tx):
     R = "C06.R2"
     L.fn(F, TX_FN)
     K = TxFacts()
-    normal = {}
     esc_rows = {}
     for (s, v, end), sig in tx.rows.items():
         if end is False and any(a[0] == "xor" for a in sig[1]):
@@ -1071,7 +1098,7 @@ def r2_tx(L, tu, tag, tx):
     K.escaped = set(per[K.normal_states[0]]) if K.normal_states else set()
     L.ob(R, F, TX_FN, "escaped octet set is the same in every non-escape transmitter state", "one set",
          {sname(tx.names, s): hxs(v) for s, v in per.items()}, len(set(per.values())) == 1)
-    L.floor(R, "escaped octet values (%s build)" % tag, len(K.escaped), 3)
+    L.floor(R, "escaped octet values (%s build)" % tag, len(K.escaped), 1)
     K.raw = set(range(256)) - K.escaped
     # standard branch
     bad = set()
@@ -1332,6 +1359,11 @@ def r4_sercomm(L, tu, tag, rx, tx, K, chain):
                     raise AnalysisError("%s(): extent of %s unknown" % (name, base))
                 if base == QUEUES and it in pn and name in ("sercomm_sendmsg", "sercomm_tx_queue_depth"):
                     continue       # caller-supplied DLCI: sercomm_sendmsg call sites are C06.R5
+                cv = tu.fold(idx)
+                if cv is not None:
+                    L.ob(R, F, name, "constant index `%s` into %s[] lies inside the array" % (it, base.split(".")[-1]),
+                         "0 <= %s < %d" % (it, ext), cv, 0 <= cv < ext, tu.line(sub))
+                    continue
                 if not is_unsigned(idx):
                     raise AnalysisError("%s(): signed index `%s` into %s -- unclassifiable" % (name, it, base))
                 g = g or CCFG(tu, fn)
@@ -1419,10 +1451,14 @@ def r4_sercomm(L, tu, tag, rx, tx, K, chain):
         incn = g.by_ast.get(id(inc)) if inc else None
         if incn is None:
             raise AnalysisError("%s(): queue scan without increment node" % TX_FN)
-        lits = g.guard_lits(incn)
+        # only tests made after the dequeue count (the idle test in front of the loop reads the same lvalue)
+        lits = set()
+        for (cn, lab) in g.guards(incn):
+            if cn.kind == "cond" and cn.cond is not None and g.dominates(node, cn):
+                lits |= cliterals(tu, cn.cond, bool(lab))
         L.ob(R, F, TX_FN, "the scan goes on to the next queue only if nothing was dequeued (stops at the first non-empty "
-             "queue)", "!%s on the loop's back edge" % TXM, sorted(("" if p else "!") + t for t, p in lits),
-             (TXM, False) in lits and dst == TXM, tu.line(loop))
+             "queue)", "!%s tested after the dequeue on the loop's back edge" % TXM,
+             sorted(("" if p else "!") + t for t, p in lits), (TXM, False) in lits and dst == TXM, tu.line(loop))
         lits = g.guard_lits(node)
         L.ob(R, F, TX_FN, "a message is dequeued only when no message is in progress", "!%s" % TXM,
              sorted(("" if p else "!") + t for t, p in lits), (TXM, False) in lits, tu.line(c))
